@@ -723,6 +723,18 @@ func (m *MonC15) AfterTx(o *TxOutcome) {
 			m.records("tx redelegate", o.Idx, o.Post)
 			return
 		}
+		// recorded finding subshare-rule: below one delegator share on the source (validator, asset) the amount is
+		// converted to shares 1:1, so the source loses more value than arrives (the rest stays as orphan shares)
+		if pv := o.Pre.Vals[o.Val]; pv != nil && pv.HasInfo {
+			S := decAmount(pv.Info.TotalDelegatorShares, o.Step.Den)
+			lo, hi := new(big.Rat).Sub(amt, b), new(big.Rat).Add(o.Pre.Value(src), b)
+			if S.IsPositive() && S.TruncateInt().IsZero() && ratAbs(new(big.Rat).Sub(dD, amt)).Cmp(b) <= 0 && dS.Cmp(lo) >= 0 && dS.Cmp(hi) <= 0 {
+				rep.KnownFinding("C15", "subshare-rule", "redelegate of %s%s from %s whose delegator-share total is %s (< 1): tokens are converted to shares 1:1, the source position lost %s while %s arrived at the destination", o.Amount, o.Step.Den, w.Name(o.Val), S, ratStr(dS), ratStr(dD))
+				rep.Class("C15.known.subshare-rule")
+				m.records("tx redelegate", o.Idx, o.Post)
+				return
+			}
+		}
 		rep.Violate("C15", "C15.moves-value", o.Idx, "redelegate %s%s: source position changed by -%s, destination by +%s (budget %s)", o.Amount, o.Step.Den, ratStr(dS), ratStr(dD), ratStr(b))
 		return
 	}
